@@ -14,7 +14,7 @@ use serde_json::{json, Value};
 use std::collections::{BTreeMap, HashMap};
 use std::panic::{catch_unwind, AssertUnwindSafe};
 use swimos::agent::agent_lifecycle::HandlerContext;
-use swimos::agent::lanes::{CommandLane, DemandLane, MapLane, SupplyLane, ValueLane};
+use swimos::agent::lanes::{CommandLane, DemandLane, DemandMapLane, MapLane, SupplyLane, ValueLane};
 use swimos::agent::{projections, AgentLaneModel};
 use swimos_agent::agent_model::downlink::BoxDownlinkChannelFactory;
 use swimos_agent::agent_model::{AgentSpec, WriteResult};
@@ -22,7 +22,11 @@ use swimos_agent::event_handler::{
     ActionContext, BoxJoinLaneInit, DownlinkSpawnOnDone, HandlerAction, HandlerFuture, LaneSpawnOnDone,
     LaneSpawner, LinkSpawner, Spawner, StepResult,
 };
+use swimos_agent::event_handler::{BoxHandlerAction, HandlerActionExt};
 use swimos_agent::lanes::demand::Demand;
+use swimos_agent::lanes::demand_map::demand_map_handler;
+use swimos_agent::lanes::demand_map::lifecycle::keys::Keys;
+use swimos_agent::lanes::demand_map::lifecycle::on_cue_key::OnCueKey;
 use swimos_agent::model::{MapMessage, Text};
 use swimos_agent::{AgentItem, AgentMetadata};
 use swimos_agent_protocol::encoding::lane::{
@@ -46,6 +50,7 @@ pub struct LAgent {
     m: MapLane<i32, i32>,
     om: MapLane<i32, i32, BTreeMap<i32, i32>>,
     sm: MapLane<String, i32, BTreeMap<String, i32>>,
+    dm: DemandMapLane<i32, i32>,
 }
 
 const STEP_BUDGET: usize = 100_000;
@@ -296,6 +301,16 @@ macro_rules! map_act {
                     json!({})
                 }
             }
+            "badcmd" => {
+                // an update (or a remove) whose key / value text is not a Recon value of the lane's types
+                let kt = BytesMut::from(a["kt"].as_str().unwrap().as_bytes());
+                let msg = match a["vt"].as_str() {
+                    Some(vt) => MapMessage::Update { key: kt, value: BytesMut::from(vt.as_bytes()) },
+                    None => MapMessage::Remove { key: kt },
+                };
+                let h = agent.on_map_command($deser, $name, msg).expect("no map command handler");
+                handler_obs(lane_id, run(agent, h))
+            }
             "sync" => {
                 let h = agent.on_sync($name, uuid_of(&a["id"])).expect("no sync handler");
                 handler_obs(lane_id, run(agent, h))
@@ -352,6 +367,11 @@ fn value_like_act(agent: &LAgent, deser: &mut <LAgent as AgentSpec>::Deserialize
                 handler_obs(lane_id, run(agent, h))
             }
         },
+        ("v", "badcmd") | ("c", "badcmd") => {
+            let body = BytesMut::from(a["body"].as_str().unwrap().as_bytes());
+            let h = agent.on_value_command(deser, lane, body).expect("no command handler");
+            handler_obs(lane_id, run(agent, h))
+        }
         ("s", "push") => handler_obs(lane_id, run(agent, hc.supply(LAgent::S, num("v")))),
         ("d", "cue") => {
             // the Cue reports the lane as modified with the trigger flag: the agent then runs the lane's
@@ -396,7 +416,114 @@ fn value_like_act(agent: &LAgent, deser: &mut <LAgent as AgentSpec>::Deserialize
     o
 }
 
+// ---------------------------------------------------------------------------------------------------------------
+// Probe (informational, not part of Lanes.tla): a DemandMapLane over a source map owned by the harness, driven the way
+// the agent task drives it: a modification carrying the trigger flag runs the lane's event handler
+// (`demand_map_handler`), and so does the completion of a write that returned RequiresEvent ("event").
+
+struct Src(std::sync::Arc<std::sync::Mutex<BTreeMap<i32, i32>>>);
+
+impl Keys<i32, LAgent> for Src {
+    type KeysHandler<'a> = BoxHandlerAction<'a, LAgent, std::collections::HashSet<i32>> where Self: 'a;
+    fn keys(&self) -> Self::KeysHandler<'_> {
+        let ks: std::collections::HashSet<i32> = self.0.lock().unwrap().keys().copied().collect();
+        HandlerContext::<LAgent>::default().value(ks).boxed()
+    }
+}
+
+impl OnCueKey<i32, i32, LAgent> for Src {
+    type OnCueKeyHandler<'a> = BoxHandlerAction<'a, LAgent, Option<i32>> where Self: 'a;
+    fn on_cue_key(&self, key: i32) -> Self::OnCueKeyHandler<'_> {
+        let v = self.0.lock().unwrap().get(&key).copied();
+        HandlerContext::<LAgent>::default().value(v).boxed()
+    }
+}
+
+/// like `run`, but reports for each modification of `lane_id` whether it asks for the lane's event handler to be run
+/// (the flags are not public: they are read off the Debug form of the Modification)
+fn run_flags<H: HandlerAction<LAgent>>(agent: &LAgent, mut h: H, lane_id: u64) -> Result<(bool, bool), String> {
+    let uri: RouteUri = "/lanes".parse().unwrap();
+    let params = HashMap::new();
+    let config = AgentConfig::default();
+    let meta = AgentMetadata::new(&uri, &params, &config);
+    let mut join_lane_init: HashMap<u64, BoxJoinLaneInit<'static, LAgent>> = HashMap::new();
+    let mut command_buffer = BytesMut::new();
+    let sp = NoSpawn;
+    let mut ctx = ActionContext::new(&sp, &sp, &sp, &mut join_lane_init, &mut command_buffer);
+    let (mut modified, mut trigger) = (false, false);
+    for _ in 0..STEP_BUDGET {
+        let (m, done) = match h.step(&mut ctx, meta, agent) {
+            StepResult::Continue { modified_item } => (modified_item, false),
+            StepResult::Fail(e) => return Err(format!("handler failed: {}", e)),
+            StepResult::Complete { modified_item, .. } => (modified_item, true),
+        };
+        if let Some(m) = m {
+            if m.id() == lane_id {
+                modified = true;
+                trigger |= format!("{:?}", m).contains("TRIGGER_HANDLER");
+            }
+        }
+        if done {
+            return Ok((modified, trigger));
+        }
+    }
+    panic!("handler did not complete within the step budget");
+}
+
+fn dm_probe(case: &Value) -> Value {
+    let agent = LAgent::default();
+    let src = Src(Default::default());
+    let lane_id = agent.dm.id();
+    let mut buf = BytesMut::new();
+    let mut obs = vec![];
+    // the agent task: run the lane's event handler while handlers keep asking for it
+    let events = |agent: &LAgent, src: &Src, mut trig: bool| -> usize {
+        let mut n = 0;
+        while trig && n < 100 {
+            n += 1;
+            let (_, t) = run_flags(agent, demand_map_handler(agent, LAgent::DM, src), lane_id).expect("event handler failed");
+            trig = t;
+        }
+        n
+    };
+    for a in case["acts"].as_array().expect("acts") {
+        let o = match a["k"].as_str().unwrap_or("") {
+            "src" => {
+                let k = a["key"].as_i64().unwrap() as i32;
+                match a["v"].as_i64() {
+                    Some(v) => src.0.lock().unwrap().insert(k, v as i32),
+                    None => src.0.lock().unwrap().remove(&k),
+                };
+                json!({})
+            }
+            "cuekey" => {
+                let hc: HandlerContext<LAgent> = HandlerContext::default();
+                let (m, t) = run_flags(&agent, hc.cue_key(LAgent::DM, a["key"].as_i64().unwrap() as i32), lane_id).unwrap();
+                json!({"mod": m, "trigger": t, "events": events(&agent, &src, t)})
+            }
+            "sync" => {
+                let h = agent.on_sync("dm", uuid_of(&a["id"])).expect("no sync handler");
+                let (m, t) = run_flags(&agent, h, lane_id).unwrap();
+                json!({"mod": m, "trigger": t, "events": events(&agent, &src, t)})
+            }
+            "event" => json!({"events": events(&agent, &src, true)}),
+            "write" => {
+                let res = agent.write_event("dm", &mut buf);
+                let o = write_obs(res, decode_map!(&buf, i32));
+                let _ = buf.split();
+                o
+            }
+            other => panic!("harness: unknown probe action {}", other),
+        };
+        obs.push(o);
+    }
+    json!({ "obs": obs })
+}
+
 fn run_case(case: &Value) -> Value {
+    if case["cfg"]["lane"] == "dm" {
+        return dm_probe(case);
+    }
     let lane = case["cfg"]["lane"].as_str().expect("cfg.lane").to_string();
     let agent = LAgent::default();
     let mut deser = agent.initialize_deserializers();
